@@ -125,7 +125,7 @@ def hygiene_hits():
 	return hits
 
 
-def build_and_audit(prop, extra_targets=()):
+def build_and_audit(prop, extra_targets=(), driver=None):
 	"""Builds the property file and driver, audits axioms.
 
 	Returns dict(ok, obligations, discharged, failed (names or log excerpt), log, driver_ok)."""
@@ -134,7 +134,7 @@ def build_and_audit(prop, extra_targets=()):
 	result['obligations'] = len(theorems)
 	result['theorems'] = theorems
 
-	code, log = lake(['build', f'driver_{prop.lower()}'])
+	code, log = lake(['build', f'driver_{(driver or prop).lower()}'])
 	result['driver_ok'] = 0 == code
 	if 0 != code:
 		result['log'] += log[-4000:]
@@ -199,21 +199,31 @@ class Driver:
 		return answer.rstrip('\n')
 
 	def ask_many(self, lines):
-		"""Pipelined requests (much faster than one round trip each)."""
+		"""Pipelined requests; answers are read concurrently so neither pipe can fill up and deadlock."""
 		if not lines:
 			return []
+		import threading
 		self.requests += len(lines)
 		answers = []
-		chunk = 2000
-		for start in range(0, len(lines), chunk):
-			part = lines[start:start + chunk]
-			self.proc.stdin.write('\n'.join(part) + '\n')
-			self.proc.stdin.flush()
-			for line in part:
+
+		def reader():
+			for _ in lines:
 				answer = self.proc.stdout.readline()
 				if not answer:
-					raise RuntimeError(f'driver died near: {line}')
+					break
 				answers.append(answer.rstrip('\n'))
+
+		thread = threading.Thread(target=reader, daemon=True)
+		thread.start()
+		try:
+			for start in range(0, len(lines), 500):
+				self.proc.stdin.write('\n'.join(lines[start:start + 500]) + '\n')
+			self.proc.stdin.flush()
+		except BrokenPipeError:
+			pass
+		thread.join()
+		if len(answers) != len(lines):
+			raise RuntimeError(f'driver died near: {lines[len(answers)][:200]}')
 		return answers
 
 	def close(self):
